@@ -176,7 +176,14 @@ fn c08_deg2rad() {
 // of `degrees_to_radians` (any call order). Decides for every (lat1, lon1, lat2, lon2) of the domain
 // WHICH quantity reaches which libm call. Weaker than the fully uninterpreted query above (a formula
 // agreeing with haversine on the probe constants would pass) but finishes, and runs on every change.
-const W: [f64; 4] = [0.3125, -1.171875, 0.84375, 2.40625];
+// two probe sets, chosen by VERIF_SEED (a formula agreeing with haversine on one set by accident does not on the other)
+const ODD: bool = crate::verif::seed::SEED % 2 == 1;
+const W: [f64; 4] = if ODD { [-0.4375, 1.296875, 2.78125, -0.96875] } else { [0.3125, -1.171875, 0.84375, 2.40625] };
+const PS: [f64; 2] = if ODD { [-0.34375, 0.90625] } else { [0.40625, -0.71875] };
+const PC: [f64; 2] = if ODD { [0.46875, -0.15625] } else { [0.59375, 0.28125] };
+const PP: [f64; 2] = if ODD { [0.109375, 0.640625] } else { [0.171875, 0.53125] };
+const PQ: [f64; 2] = if ODD { [0.71875, 0.59375] } else { [0.65625, 0.78125] };
+const PA: f64 = if ODD { 0.921875 } else { 0.703125 };
 
 fn probe(separated: bool) {
     let (lat1, lon1, lat2, lon2) = (any_f64(), any_f64(), any_f64(), any_f64());
@@ -194,11 +201,11 @@ fn probe(separated: bool) {
     unsafe {
         D2R_RET = W;
         D2R_N = 0;
-        SIN_RET = [0.40625, -0.71875];
-        COS_RET = [0.59375, 0.28125];
-        POWI_RET = [0.171875, 0.53125];
-        SQRT_RET = [0.65625, 0.78125];
-        ATAN2_RET = 0.703125;
+        SIN_RET = PS;
+        COS_RET = PC;
+        POWI_RET = PP;
+        SQRT_RET = PQ;
+        ATAN2_RET = PA;
         SIN_N = 0;
         COS_N = 0;
         POWI_N = 0;
